@@ -169,14 +169,14 @@ class SingleItemDecoder(object):
         if LOG:
             LOG('calling decoder %s on Python type %s '
                 '<%s>' % (type(valueDecoder).__name__,
-                          type(pyObject).__name__, repr(pyObject)))
+                          type(pyObject).__name__, debug.prettyValue(pyObject)))
 
         value = valueDecoder(pyObject, asn1Spec, self, **options)
 
         if LOG:
             LOG('decoder %s produced ASN.1 type %s '
                 '<%s>' % (type(valueDecoder).__name__,
-                          type(value).__name__, repr(value)))
+                          type(value).__name__, debug.prettyValue(value)))
             debug.scope.pop()
 
         return value
